@@ -30,7 +30,10 @@ def shards(tier, seed):
         n_sh, n, nmax, budget = 16, 5000, 300000, 600
     return [{"name": f"plans{i}", "threads": 1, "timeout": budget * 4 + 300,
              "params": {"seed": seed, "shard": i, "n": n, "nmax": nmax, "budget_s": budget}}
-            for i in range(n_sh)] + ([{"name": "repo-tests", "threads": 4, "timeout": 1800,
+            for i in range(n_sh)] + [{"name": "threaded", "threads": 1, "timeout": 900,
+                                      "params": {"kind": "threaded", "seed": seed, "nthreads": 4,
+                                                 "per_thread": 40 if tier == "quick" else 400}}] \
+        + ([{"name": "repo-tests", "threads": 4, "timeout": 1800,
                                        "params": {"kind": "repo-tests"}}] if tier == "thorough" else [])
 
 
@@ -73,6 +76,8 @@ def extra(rec, cfg, rng, i):
 def run_shard(params, rec):
     if params.get("kind") == "repo-tests":
         return planwork.run_repo_tests(ID, rec)
+    if params.get("kind") == "threaded":
+        return planwork.run_threaded_shard(ID, params, rec)
     planwork.run_mixed_shard(ID, params, rec, extra)
 
 
